@@ -276,6 +276,7 @@ type Worker struct {
 	journal  []journalEnt
 	mergeDepthAbort bool
 	inInit          bool
+	constCache      map[*ssa.Const]Value
 	randSeq         int
 	stubs           map[string]Value
 	models          []*evalModel
@@ -297,6 +298,7 @@ type budgetErr struct{ msg string }
 func newWorker(e *Explorer, id int) *Worker {
 	w := &Worker{id: id, ex: e, cfg: e.cfg, stats: newStats()}
 	w.tt = NewTermTable()
+	w.constCache = map[*ssa.Const]Value{}
 	w.solver = NewSolver(e.cfg.SolverBin, w.tt, e.cfg.SoftMS)
 	if e.cfg.SolverLog != "" && id == 0 {
 		f, err := os.Create(e.cfg.SolverLog)
@@ -324,6 +326,8 @@ func (w *Worker) resetTerms() {
 	w.flushSolverStats()
 	w.solver.Close()
 	w.tt = NewTermTable()
+	w.constCache = map[*ssa.Const]Value{}
+	w.models = nil
 	w.solver = NewSolver(w.cfg.SolverBin, w.tt, w.cfg.SoftMS)
 }
 
